@@ -817,9 +817,22 @@ struct Runner {
   // a version check (VerifyVersion or TryLock*) by a guard that carried `carried`; `rel_inv_at_obtain` is the number of X-release
   // calls that had been invoked when the call that obtained `carried` returned
   void check_validation(LS &L, const CallInfo &ci, bool ok, uint32_t carried, uint32_t after, uint64_t rel_inv_at_obtain, const OptRead *rd,
-                        const char *api, bool took_x)
+                        const char *api, bool took_x, uint64_t grant_seq = 0)
   {
     const uint64_t ret = dsim::seq();
+    if (ok && sh.fresh && grant_seq != 0) {
+      // the instant the grant was taken (the call's first write to the lock object) is known: every X-release call that had
+      // returned before it, and was invoked after the version was obtained, has committed a different version by then
+      uint64_t returned_before_grant = 0;
+      for (size_t k = 1; k < L.pubs.size(); ++k)
+        if (L.pubs[k].ret != 0 && L.pubs[k].ret < grant_seq) returned_before_grant++;
+      if (returned_before_grant > rel_inv_at_obtain) {
+        char cls[96];
+        snprintf(cls, sizeof(cls), "%s-granted-after-x-commit", api);
+        ORACLE("[C03]", cls, " :: %s of vt%d took its grant on lock %d at event %lu with version %u although an exclusive section had been committed since that version was obtained",
+               api, dsim::self(), L.idx, static_cast<unsigned long>(grant_seq), carried);
+      }
+    }
     if (ok) {
       const bool x_other = L.x_holder >= 0 && !(took_x && L.x_holder == dsim::self());
       if (ci.x_at_inv && x_other && L.x_epoch == ci.x_epoch_at_inv) {
@@ -897,9 +910,10 @@ struct Runner {
             {
               SG g = og.TryLockS();
               ok = static_cast<bool>(g);
-              if (!ok && dsim::watched_write_seq() != 0) suspect("[C03]");
+              const uint64_t grant_seq = dsim::watched_write_seq();
+              if (!ok && grant_seq != 0) suspect("[C03]");
               if (ok) granted(L, ci, kS, fTry, "TryLockS", false); else post_call();
-              check_validation(L, ci, ok, carried, og.GetVersion(), rel_inv_at_obtain, &rd, "TryLockS", false);
+              check_validation(L, ci, ok, carried, og.GetVersion(), rel_inv_at_obtain, &rd, "TryLockS", false, grant_seq);
               if (ok) {
                 Slots<SG> s;
                 manipulate(L, g, s, static_cast<int>(op.b));
@@ -920,9 +934,10 @@ struct Runner {
             {
               SIXG g = og.TryLockSIX();
               ok = static_cast<bool>(g);
-              if (!ok && dsim::watched_write_seq() != 0) suspect("[C03]");
+              const uint64_t grant_seq = dsim::watched_write_seq();
+              if (!ok && grant_seq != 0) suspect("[C03]");
               if (ok) granted(L, ci, kSIX, fTry, "TryLockSIX", false); else post_call();
-              check_validation(L, ci, ok, carried, og.GetVersion(), rel_inv_at_obtain, &rd, "TryLockSIX", false);
+              check_validation(L, ci, ok, carried, og.GetVersion(), rel_inv_at_obtain, &rd, "TryLockSIX", false, grant_seq);
               if (ok) {
                 Slots<SIXG> s;
                 manipulate(L, g, s, static_cast<int>(op.b));
@@ -943,9 +958,10 @@ struct Runner {
             {
               XG g = og.TryLockX();
               ok = static_cast<bool>(g);
-              if (!ok && dsim::watched_write_seq() != 0) suspect("[C03]");
+              const uint64_t grant_seq = dsim::watched_write_seq();
+              if (!ok && grant_seq != 0) suspect("[C03]");
               if (ok) granted(L, ci, kX, fTry, "TryLockX", false); else post_call();
-              check_validation(L, ci, ok, carried, og.GetVersion(), rel_inv_at_obtain, &rd, "TryLockX", true);
+              check_validation(L, ci, ok, carried, og.GetVersion(), rel_inv_at_obtain, &rd, "TryLockX", true, grant_seq);
               if (ok) {
                 const uint32_t acquired = x_begin_version(L, g);
                 if (acquired != carried) {
